@@ -153,12 +153,16 @@ TStillAlive == Is("StillAlive") /\ Same /\ phase # "exited"
 TKilledEarly == Is("KilledEarly") /\ UNCHANGED xvars /\ phase = "waitHealthy" /\ phase' = "exited" /\ exitCode' = 0
         /\ UNCHANGED <<checks, bad, streak, passed, loop, lists, listsAfterCancel, cancelled, signalled, clock, req, reqAt, fwdBeforeSignal, retry, slept>>
                /\ Step
+\* end of a scripted sequence of list-call outcomes: every delay is bounded by Hi (3.3 s), so an agent that is still
+\* running has made all the calls of the sequence long before the harness stops waiting (C08: no unbounded delay)
+TPatternEnd == Is("PatternEnd") /\ Same /\ (E.reached \/ phase = "exited")
+               /\ Step
 TOther == (Is("Dedup") \/ Is("Spawn") \/ Is("WForward") \/ Is("WServed") \/ Is("WClosed") \/ Is("Final")) /\ Same
                /\ Step
 
 TNext == TReset \/ TCfg \/ THealthReply \/ THealthy \/ THealth \/ TProbe \/ TPollCheck \/ TPollStop \/ TListArrive \/ TListAnswer
          \/ TListOK \/ TListFail \/ TBackoff \/ TBackoffFn \/ TFetch \/ TBackend \/ TPost \/ TSignal \/ TCancel \/ TGraceEnd
-         \/ TSignalSent \/ TExit \/ TStillAlive \/ TKilledEarly \/ TOther
+         \/ TSignalSent \/ TExit \/ TStillAlive \/ TKilledEarly \/ TOther \/ TPatternEnd
 TSpec == TInit /\ [][TNext]_<<avars, xvars, l>>
 
 NoListBeforeHealthy == (cfg.health /\ lists > 0) => passed
